@@ -38,6 +38,14 @@ use vcore::{
 
 const WATCHDOG: Duration = Duration::from_secs(30);
 const KNOWN_STUCK: &str = "C19/call-queued-at-exit/never-answered";
+/// the residual window of fix eb9af6c: the call entered the mailbox while the actor was already exiting
+const KNOWN_STUCK_RACY: &str = "C19/call-queued-at-exit/never-answered/accepted-while-exiting";
+/// set (before the fact) as soon as anybody asks the burst's actor to exit; cases run one at a time per process
+static EXIT_BEGUN: AtomicBool = AtomicBool::new(false);
+thread_local! {
+    /// `EXIT_BEGUN` as sampled right after the first poll of the last `drive_call` on this thread (= after its send)
+    static CALL_WHILE_EXITING: std::cell::Cell<bool> = const { std::cell::Cell::new(false) };
+}
 
 // ------------------------------------------------------------------------------------------------
 // case type
@@ -126,9 +134,16 @@ fn drive_call<F: Future>(fut: F, gone: &AtomicBool, max: Duration) -> Driven<F::
     let waker = Waker::from(Arc::new(ThreadWaker(std::thread::current())));
     let mut cx = Context::from_waker(&waker);
     let end = Instant::now() + max;
+    let mut first = true;
     loop {
         let was_gone = gone.load(Ordering::SeqCst);
-        if let Poll::Ready(v) = fut.as_mut().poll(&mut cx) {
+        let r = fut.as_mut().poll(&mut cx);
+        if first {
+            // the request is in the mailbox now (or was refused): had an exit already been asked for?
+            CALL_WHILE_EXITING.with(|c| c.set(EXIT_BEGUN.load(Ordering::SeqCst)));
+            first = false;
+        }
+        if let Poll::Ready(v) = r {
             return Driven::Done(v);
         }
         if was_gone {
@@ -173,6 +188,8 @@ struct Rec {
     call: bool,
     act: Act,
     out: Out,
+    /// (calls) an exit of the actor had been asked for by the time the request entered the mailbox
+    while_exiting: bool,
 }
 
 impl Rec {
@@ -222,6 +239,7 @@ struct World {
     sup_expect: HashMap<String, Vec<SupKind>>,
     labels: HashSet<String>,
     known_stuck: Option<String>,
+    known_stuck_racy: Option<String>,
     names_used: HashMap<String, u32>,
     exit_with_concurrent_senders: bool,
 }
@@ -610,6 +628,10 @@ fn run_sender(target: Target, sender: u16, ops: Vec<Op>, gone: Arc<AtomicBool>, 
     let mut recs = vec![];
     for (k, op) in ops.iter().enumerate() {
         let id = (sender, k as u32);
+        if matches!(op.act, Act::Fail | Act::StopSelf) {
+            EXIT_BEGUN.store(true, Ordering::SeqCst);
+        }
+        CALL_WHILE_EXITING.with(|c| c.set(false));
         let out = if op.call {
             let ask = Ask { id, act: op.act };
             let r = match &target {
@@ -668,7 +690,7 @@ fn run_sender(target: Target, sender: u16, ops: Vec<Op>, gone: Arc<AtomicBool>, 
                 Err(e) => Out::Wrong(format!("send {id:?} handed back {:?}", e.into_inner().id)),
             }
         };
-        let rec = Rec { id, call: op.call, act: op.act, out };
+        let rec = Rec { id, call: op.call, act: op.act, out, while_exiting: op.call && CALL_WHILE_EXITING.with(|c| c.get()) };
         if rec.accepted() && matches!(op.act, Act::Fail | Act::StopSelf) {
             cause.store(true, Ordering::SeqCst);
         }
@@ -709,6 +731,7 @@ fn run_inner(case: &ActorCase) -> Result<Outcome, Fail> {
         sup_expect: HashMap::new(),
         labels: HashSet::new(),
         known_stuck: None,
+        known_stuck_racy: None,
         names_used: HashMap::new(),
         exit_with_concurrent_senders: false,
     };
@@ -736,6 +759,9 @@ fn run_inner(case: &ActorCase) -> Result<Outcome, Fail> {
     }
     if let Some(d) = w.known_stuck {
         return Err(viol(KNOWN_STUCK, d));
+    }
+    if let Some(d) = w.known_stuck_racy {
+        return Err(viol(KNOWN_STUCK_RACY, d));
     }
     if w.names_used.values().any(|n| *n >= 2) {
         w.labels.insert("name-reused".into());
@@ -1031,6 +1057,7 @@ fn step_block(w: &mut World, slot: usize, group_accepted: &HashSet<MsgId>) -> Re
 }
 
 fn step_burst(w: &mut World, slot: usize, senders: &[Vec<Op>], exit: Option<&ExitRace>, calls_may_race: bool, group_accepted: &HashSet<MsgId>) -> Result<(), Fail> {
+    EXIT_BEGUN.store(false, Ordering::SeqCst);
     let blocked = w.slots[slot].as_ref().unwrap().blocked.is_some();
     let exit = if blocked { None } else { exit };
     let has_cause = exit.is_some() || senders.iter().flatten().any(|o| matches!(o.act, Act::Fail | Act::StopSelf));
@@ -1068,6 +1095,7 @@ fn step_burst(w: &mut World, slot: usize, senders: &[Vec<Op>], exit: Option<&Exi
     // the controller's side of the race
     if let Some(x) = exit {
         std::thread::sleep(Duration::from_micros(x.after_us as u64));
+        EXIT_BEGUN.store(true, Ordering::SeqCst);
         let l = w.slots[slot].as_mut().unwrap();
         match x.kind {
             ExitKind::Stop => {
@@ -1174,6 +1202,12 @@ fn step_burst(w: &mut World, slot: usize, senders: &[Vec<Op>], exit: Option<&Exi
             }
             Out::CallNoReply if !exiting && !matches!(r.act, Act::NoReply) => {
                 return Err(viol("C19/call-no-reply-from-live-actor", format!("call {:?} ({:?}) to live actor {aid} returned NoReply", r.id, r.act)));
+            }
+            Out::CallStuck if r.while_exiting => {
+                w.known_stuck_racy.get_or_insert(format!(
+                    "call {:?} entered actor {aid}'s mailbox after an exit of the actor had been asked for; the actor has exited and the call future is still Pending (the request slipped in between finish()'s drain of the queue and its drop of the receiver)",
+                    r.id
+                ));
             }
             Out::CallStuck => {
                 w.known_stuck.get_or_insert(format!(
@@ -1302,6 +1336,7 @@ fn step_group_send(w: &mut World, n: u8, call: bool, group_accepted: &mut HashSe
 }
 
 fn step_group_burst(w: &mut World, senders: &[Vec<Op>], group_accepted: &mut HashSet<MsgId>) -> Result<(), Fail> {
+    EXIT_BEGUN.store(false, Ordering::SeqCst);
     settle_members(w, group_accepted)?;
     let (idle, full) = live_member_sets(w);
     let n = senders.len();
